@@ -245,6 +245,54 @@ def execute_run(scn, config, tape_values=None, run_seed=None, keep_events=0):
 _FINDINGS_CACHE = {}
 
 
+def execute_run_isolated(scn, config, tape_values=None, run_seed=None, keep_events=0):
+    """Execute the run in a forked child so that process-global state a run leaves behind (module
+    globals, RNG state, dispatcher caches) can never leak into the next run: a run's result depends
+    only on (config, tape) and the state of the freshly prepared parent."""
+    import pickle
+    r, w = os.pipe()
+    pid = os.fork()
+    if pid == 0:
+        code = 0
+        try:
+            os.close(r)
+            try:
+                res = ("ok", execute_run(scn, config, tape_values=tape_values, run_seed=run_seed, keep_events=keep_events))
+            except HarnessError as e:
+                res = ("harness", str(e))
+            except BaseException as e:  # noqa
+                res = ("harness", "%s: %s\n%s" % (type(e).__name__, e, traceback.format_exc()))
+            with os.fdopen(w, "wb") as f:
+                pickle.dump(_jsonable_result(res), f)
+        except BaseException:
+            code = 3
+        finally:
+            os._exit(code)
+    os.close(w)
+    with os.fdopen(r, "rb") as f:
+        data = f.read()
+    _, status = os.waitpid(pid, 0)
+    if not data:
+        raise HarnessError("isolated run died (status %r)" % status)
+    kind, payload = pickle.loads(data)
+    if kind != "ok":
+        raise HarnessError(payload)
+    return payload
+
+
+def _jsonable_result(res):
+    kind, payload = res
+    if kind == "ok":
+        payload = dict(payload)
+        payload["violation"] = _jsonable(payload["violation"])
+        payload["head"] = _jsonable(payload["head"])
+    return (kind, payload)
+
+
+def run_for(scn):
+    return execute_run_isolated if getattr(scn, "ISOLATE", False) else execute_run
+
+
 class RunContext:
     def __init__(self, config, tape, log, counters, keys):
         self.config = config
@@ -334,7 +382,7 @@ def minimise(scn, result, budget=80, wall=120.0):
         nonlocal tries
         tries += 1
         try:
-            r = execute_run(scn, config, tape_values=tape)
+            r = run_for(scn)(scn, config, tape_values=tape)
         except HarnessError:
             return None
         if same_violation(r["violation"], target):
